@@ -41,6 +41,61 @@ def value_ports(h, n):
     return 0, 0
 
 
+def _meta_json(terms):
+    return {t.args[0].value: t.args[1].value for t in terms
+            if isinstance(t, model.Apply) and t.symbol == "compat.meta_json" and len(t.args) == 2}
+
+
+def func_term(term, body) -> list:
+    """A function-valued constant: `Func(region)`, the region being the body's root dataflow graph (reference: export.rs,
+    Value::Function -> export_dfg of the root)."""
+    out = []
+    if not isinstance(term, model.Func):
+        return [f"exported as {type(term).__name__}, not a function term"]
+    r = term.region
+    if r.kind != model.RegionKind.DATA_FLOW:
+        out.append(f"region kind {r.kind}")
+    kids = body.children(body.root)
+    inp = [c for c in kids if isinstance(body[c].op, ops.Input)]
+    outp = [c for c in kids if isinstance(body[c].op, ops.Output)]
+    rest = [c for c in kids if not isinstance(body[c].op, ops.Input | ops.Output | ops.Const)]
+    if inp and len(r.sources) != len(body[inp[0]].op.types):
+        out.append(f"{len(r.sources)} sources for {len(body[inp[0]].op.types)} inputs")
+    if outp and len(r.targets) != len(body[outp[0]].op.types):
+        out.append(f"{len(r.targets)} targets for {len(body[outp[0]].op.types)} outputs")
+    if len(r.children) != len(rest):
+        out.append(f"{len(r.children)} children for {len(rest)} body nodes")
+    for c, mc in zip(rest, r.children):
+        want = {k: json.dumps(v) for k, v in body[c].metadata.items()}
+        if _meta_json(mc.meta) != want:
+            out.append(f"body node {c.idx}: metadata {_meta_json(mc.meta)} != {want}")
+        ni, no = value_ports(body, c)
+        if len(mc.inputs) != ni or len(mc.outputs) != no:
+            out.append(f"body node {c.idx}: lists {len(mc.inputs)}/{len(mc.outputs)} ports, signature has {ni}/{no}")
+    # inside the (closed) region two ports share a name exactly when an edge of the body joins them
+    uf = UF()
+    for s_, t_ in body.links():
+        uf.union(("out", s_.node.idx, s_.offset), ("in", t_.node.idx, t_.offset))
+    names = {}
+    if inp:
+        for i, nm in enumerate(r.sources):
+            names[("out", inp[0].idx, i)] = nm
+    if outp:
+        for i, nm in enumerate(r.targets):
+            names[("in", outp[0].idx, i)] = nm
+    for c, mc in zip(rest, r.children):
+        for i, nm in enumerate(mc.inputs):
+            names[("in", c.idx, i)] = nm
+        for i, nm in enumerate(mc.outputs):
+            names[("out", c.idx, i)] = nm
+    ports = list(names)
+    for i, a in enumerate(ports):
+        for b in ports[i + 1:]:
+            if (uf.find(a) == uf.find(b)) != (names[a] == names[b]):
+                out.append(f"ports {a} and {b}: names {names[a]!r}/{names[b]!r} disagree with the body's edges")
+    return out
+
+
 def check(h, m) -> list:
     out = []
     uf = UF()
@@ -77,6 +132,17 @@ def check(h, m) -> list:
                 got_meta[t.args[0].value] = t.args[1].value
         if got_meta != want_meta:
             out.append(f"node {n.idx}: metadata {got_meta} != {want_meta}")
+        if isinstance(op, ops.LoadConst):
+            # constants are inlined into their loads; a function-valued constant becomes a dataflow region mirroring its body
+            t = mn.operation.operation if isinstance(mn.operation, model.CustomOp) else None
+            if not (isinstance(t, model.Apply) and t.symbol == "core.load_const" and len(t.args) == 2):
+                out.append(f"node {n.idx}: constant load exported as {mn.operation!r:.80}")
+            else:
+                src = list(h.linked_ports(InPort(n, 0)))
+                cv = h[src[0].node].op.val if src and isinstance(h[src[0].node].op, ops.Const) else None
+                from hugr import val as _val
+                if isinstance(cv, _val.Function):
+                    out.extend(f"function constant loaded by {n.idx}: {e}" for e in func_term(t.args[1], cv.body))
         if isinstance(op, ops.FuncDefn | ops.FuncDecl):
             if not isinstance(mn.operation, model.DefineFunc | model.DeclareFunc):
                 out.append(f"node {n.idx}: function exported as {type(mn.operation).__name__}")
